@@ -469,6 +469,21 @@ def hubs(tier="quick"):
     return out
 
 
+def large(tier="quick"):
+    """graphs beyond the limits of small integer types (more than 127 / 255 atoms): a chain with scrambled identifiers that carries
+    one stereocentre at one end, and the same as a reaction graph with one formed bond"""
+    out = []
+    for n in ((130,) if tier == "quick" else (130, 260)):
+        k = 7 if n % 7 else 11
+        chain = [((i * k) % n) for i in range(n)]
+        atoms = [(a, "C") for a in range(n)] + [(n, "H"), (n + 1, "F"), (n + 2, "Cl")]
+        bonds = [(chain[i], chain[i + 1]) for i in range(n - 1)] + [(chain[0], n), (chain[0], n + 1), (chain[0], n + 2)]
+        out.append(mk(MG, atoms, bonds))
+        out.append(mk(SMG, atoms, bonds, astereo=[("Tetrahedral", (chain[0], chain[1], n, n + 1, n + 2), 1)]))
+        out.append(mk(CRG, atoms, [(chain[n // 2], chain[n // 2 + 1], "FORMED")] + [b for b in bonds if set(b) != {chain[n // 2], chain[n // 2 + 1]}]))
+    return out
+
+
 def symmetric():
     out = []
     C = lambda n: [(i, "C") for i in range(n)]  # noqa: E731
